@@ -300,12 +300,27 @@ func (f *Font) encodeCharstrings() map[string]string {
 	return charStrings
 }
 
-func writeEncoding(encoding []string) string {
+func writeEncoding(info *fontInfo) string {
+	encoding := info.Encoding
 	if len(encoding) != 256 {
 		return ""
 	}
 	if isStandardEncoding(encoding) {
-		return "/Encoding StandardEncoding def\n"
+		// The short form assigns all standard names.  This is only equivalent
+		// if the codes which are left unassigned here refer to glyphs which
+		// are not present in the font anyway.
+		equivalent := true
+		for i, s := range encoding {
+			if s == ".notdef" && psenc.StandardEncoding[i] != ".notdef" {
+				if _, present := info.CharStrings[psenc.StandardEncoding[i]]; present {
+					equivalent = false
+					break
+				}
+			}
+		}
+		if equivalent {
+			return "/Encoding StandardEncoding def\n"
+		}
 	}
 
 	b := &strings.Builder{}
@@ -363,7 +378,7 @@ var tmpl = template.Must(template.New("type1").Funcs(template.FuncMap{
 /UnderlineThickness {{.UnderlineThickness}} def
 end def
 /FontName {{.FontName|PN}} def
-{{ .Encoding|E -}}
+{{ .|E -}}
 /PaintType 0 def
 /FontType 1 def
 /FontMatrix {{ .FontMatrix }} def
